@@ -1,0 +1,233 @@
+//! Verification instrumentation, only compiled with the `verif-hooks` feature.
+//!
+//! Every access made through [`RecordMaybeUninit`](crate::data::RecordMaybeUninit) is checked
+//! against the capacity of the buffer, the alignment of the accessed type at the actual address of
+//! the buffer and a per-byte ownership shadow which travels with the buffer (it is a trailing
+//! field of alignment 1, copied bit for bit whenever the buffer is).
+//!
+//! Nothing panics here: violations are recorded in a thread local list that the verification
+//! harness drains.
+
+use std::cell::{Cell, RefCell};
+
+/// The byte is not owned by the record (never written, or moved out).
+const UNOWNED: u8 = 0;
+/// Flag of the first byte of a live value.
+const FIRST: u8 = 0x80;
+
+thread_local! {
+    static VIOLATIONS: RefCell<Vec<String>> = const { RefCell::new(Vec::new()) };
+    static COUNTERS: Cell<Counters> = const { Cell::new(Counters::ZERO) };
+}
+
+/// Access counters (per thread).
+#[derive(Clone, Copy, Debug, Default, PartialEq, Eq)]
+pub struct Counters {
+    pub reads: u64,
+    pub writes: u64,
+    pub gets: u64,
+    pub get_muts: u64,
+    /// Stores whose destination was not aligned for the stored type (allowed only when the store
+    /// does not require alignment).
+    pub misaligned_stores: u64,
+    /// Accesses of types with drop glue (the ones the shadow tracks).
+    pub droppable_accesses: u64,
+    pub buffers_dropped: u64,
+}
+
+impl Counters {
+    const ZERO: Counters = Counters {
+        reads: 0,
+        writes: 0,
+        gets: 0,
+        get_muts: 0,
+        misaligned_stores: 0,
+        droppable_accesses: 0,
+        buffers_dropped: 0,
+    };
+}
+
+fn count(f: impl FnOnce(&mut Counters)) {
+    let _ = COUNTERS.try_with(|c| {
+        let mut v = c.get();
+        f(&mut v);
+        c.set(v);
+    });
+}
+
+fn violation(message: String) {
+    let _ = VIOLATIONS.try_with(|v| {
+        if let Ok(mut v) = v.try_borrow_mut() {
+            if v.len() < 64 {
+                v.push(message);
+            }
+        }
+    });
+}
+
+/// Takes the violations recorded on this thread so far.
+pub fn take_violations() -> Vec<String> {
+    VIOLATIONS
+        .try_with(|v| std::mem::take(&mut *v.borrow_mut()))
+        .unwrap_or_default()
+}
+
+/// Takes (and resets) the access counters of this thread.
+pub fn take_counters() -> Counters {
+    COUNTERS
+        .try_with(|c| c.replace(Counters::ZERO))
+        .unwrap_or_default()
+}
+
+#[derive(Clone, Copy, PartialEq, Eq, Debug)]
+pub enum Access {
+    Read,
+    Write { requires_alignment: bool },
+    Get,
+    GetMut,
+}
+
+fn type_tag<T>() -> u8 {
+    // FNV-1a of the type name folded to 7 bits, never 0. A collision can only hide a type
+    // confusion, it cannot create a report.
+    let mut h: u32 = 0x811c9dc5;
+    for b in std::any::type_name::<T>().bytes() {
+        h ^= b as u32;
+        h = h.wrapping_mul(0x01000193);
+    }
+    let folded = ((h ^ (h >> 7) ^ (h >> 14) ^ (h >> 21) ^ (h >> 28)) & 0x7f) as u8;
+    if folded == 0 {
+        0x55
+    } else {
+        folded
+    }
+}
+
+/// Per-byte ownership shadow of a record buffer.
+pub struct Shadow<const CAP: usize> {
+    bytes: [Cell<u8>; CAP],
+}
+
+impl<const CAP: usize> Default for Shadow<CAP> {
+    fn default() -> Self {
+        Self {
+            bytes: [const { Cell::new(UNOWNED) }; CAP],
+        }
+    }
+}
+
+impl<const CAP: usize> Shadow<CAP> {
+    /// Checks one access and updates the shadow accordingly.
+    pub fn on_access<T>(&self, access: Access, base: usize, offset: usize) {
+        let size = std::mem::size_of::<T>();
+        let align = std::mem::align_of::<T>();
+        let type_name = std::any::type_name::<T>();
+        let droppable = std::mem::needs_drop::<T>();
+
+        count(|c| {
+            match access {
+                Access::Read => c.reads += 1,
+                Access::Write { .. } => c.writes += 1,
+                Access::Get => c.gets += 1,
+                Access::GetMut => c.get_muts += 1,
+            }
+            if droppable {
+                c.droppable_accesses += 1;
+            }
+        });
+
+        // Bounds
+        let end = match offset.checked_add(size) {
+            Some(end) if end <= CAP => end,
+            _ => {
+                violation(format!(
+                    "out-of-bounds {:?} of {} (size {}) at offset {} in a buffer of capacity {}",
+                    access, type_name, size, offset, CAP
+                ));
+                return;
+            }
+        };
+
+        // Alignment at the actual address
+        let misaligned = (base.wrapping_add(offset)) % align != 0;
+        match access {
+            Access::Write {
+                requires_alignment: false,
+            } => {
+                if misaligned {
+                    count(|c| c.misaligned_stores += 1);
+                }
+            }
+            _ => {
+                if misaligned {
+                    violation(format!(
+                        "misaligned {:?} of {} (align {}) at address {:#x} + {}",
+                        access, type_name, align, base, offset
+                    ));
+                }
+            }
+        }
+
+        // Ownership
+        let range = &self.bytes[offset..end];
+        if droppable && size > 0 {
+            let tag = type_tag::<T>();
+            match access {
+                Access::Write { .. } => {
+                    if let Some(pos) = range.iter().position(|b| b.get() != UNOWNED) {
+                        violation(format!(
+                            "store of {} at offset {} lands on a value the record still owns (byte {})",
+                            type_name,
+                            offset,
+                            offset + pos
+                        ));
+                    }
+                    for (i, b) in range.iter().enumerate() {
+                        b.set(if i == 0 { tag | FIRST } else { tag });
+                    }
+                }
+                Access::Read | Access::Get | Access::GetMut => {
+                    let live = range
+                        .iter()
+                        .enumerate()
+                        .all(|(i, b)| b.get() == if i == 0 { tag | FIRST } else { tag });
+                    if !live {
+                        violation(format!(
+                            "{:?} of {} at offset {}: no live value of that type is stored there \
+                             (moved out, never written, or another type)",
+                            access, type_name, offset
+                        ));
+                    }
+                    if access == Access::Read {
+                        for b in range {
+                            b.set(UNOWNED);
+                        }
+                    }
+                }
+            }
+        } else if size > 0 {
+            // Plain data: it may be uninitialized, but it must not alias a value with drop glue.
+            if let Some(pos) = range.iter().position(|b| b.get() != UNOWNED) {
+                violation(format!(
+                    "{:?} of {} at offset {} touches a value of another type the record owns (byte {})",
+                    access,
+                    type_name,
+                    offset,
+                    offset + pos
+                ));
+            }
+        }
+    }
+}
+
+impl<const CAP: usize> Drop for Shadow<CAP> {
+    fn drop(&mut self) {
+        count(|c| c.buffers_dropped += 1);
+        if let Some(pos) = self.bytes.iter().position(|b| b.get() != UNOWNED) {
+            violation(format!(
+                "record buffer dropped while it still owns a value (byte {})",
+                pos
+            ));
+        }
+    }
+}
